@@ -47,6 +47,19 @@ func IsClassDefined(frames []string, class string) bool {
 	return ok
 }
 
+// IsDefinedClassName answers whether some frame defines a class of this name.
+// It backs the lexical classification of names without a lower-case letter
+// (IO, K9): a constant by shape, a class once `class IO` has been seen.
+func IsDefinedClassName(class string) bool {
+	for key := range DefinedClassTable {
+		if key.class == class {
+			return true
+		}
+	}
+
+	return false
+}
+
 func SetDefinedClass(frame, class string) {
 	key := DefinedClass{frame: frame, class: class}
 	DefinedClassTable[key] = true
